@@ -1,18 +1,16 @@
-(* C02: the graph route for slivers without children (node, stand-alone service, interface, link):
-   written into an empty graph of the in-memory backend model and rebuilt, every attribute and the
-   node id come back.  (Trees with children through the graph route are covered by the tie only.) *)
+(* C02, graph route, part 3: the readers rebuild every sliver of graph_of t, and the round trip
+   graph_roundtrip t = Ok t for every sliver tree the graph route can carry (graph_wf). *)
 From Coq Require Import List String NArith Bool.
 From FIM Require Import Base.Str Model.Sliver2Kinds Gen.PropMap Model.Sliver2Map Model.Sliver2WF
-  Model.Sliver2Deep Model.Sliver2DeepWF Model.Sliver2Graph
-  Proofs.Sliver2Assoc Proofs.Sliver2MapRT Proofs.Sliver2Elem Proofs.Sliver2DeepRT.
+  Model.Sliver2Deep Model.Sliver2DeepWF Model.Sliver2Graph Model.Sliver2GraphWF
+  Proofs.Sliver2Assoc Proofs.Sliver2MapRT Proofs.Sliver2Elem Proofs.Sliver2DeepRT
+  Proofs.Sliver2GraphW Proofs.Sliver2GraphR.
 Import ListNotations.
 
 Local Opaque enums type_enum to_base from_base to_specific from_specific setters getters init_attrs
-  sliver_property_to_graph no_unset_properties child_keys node_id_prop.
+  sliver_property_to_graph no_unset_properties child_keys node_id_prop add_interface_descends all_tables_ok.
 
-(* the properties of the node add_node creates *)
-Definition node_props (id : str) (p : props) : props := aupdate [(node_id_prop, Some id)] p.
-
+(* ---------- the node's properties read back as the sliver's attributes ---------- *)
 Lemma node_props_lookup id p g :
   NoDup (akeys p) -> g <> node_id_prop -> alookup g (node_props id p) = alookup g p.
 Proof.
@@ -24,8 +22,7 @@ Proof.
     + intro Hc. destruct (alookup_in_keys _ _ Hc) as [v Hv]. rewrite Hv in E. discriminate.
 Qed.
 
-Lemma node_props_id id p :
-  ~ In node_id_prop (akeys p) -> node_id_of (node_props id p) = Some id.
+Lemma node_props_id id p : ~ In node_id_prop (akeys p) -> node_id_of (node_props id p) = Some id.
 Proof.
   intro Hn. unfold node_id_of, pget, node_props. rewrite aupdate_is_asets.
   rewrite asets_lookup_notin by exact Hn. simpl. rewrite String.eqb_refl. reflexivity.
@@ -52,77 +49,287 @@ Proof.
   rewrite forallb_forall in Hd.
   apply (Forall2_from_val_cong k p (node_props id p) _ _); [|exact HF].
   intros fe Hfe. unfold pget. rewrite node_props_lookup; [reflexivity | exact ND |].
-  specialize (Hd fe Hfe). intro E. rewrite E in Hd. rewrite String.eqb_refl in Hd. discriminate.
+  specialize (Hd fe Hfe). intro E. rewrite E in Hd. rewrite String.eqb_refl in Hd. discriminate Hd.
 Qed.
 
-Definition flat (k : kind) (id : str) (a : attrs) : tree := T k (Some id) a None None None.
-
-Lemma single_node_find id label p :
-  find_node {| g_nodes := [{| g_id := id; g_label := label; g_props := p |}]; g_edges := [] |} id
-  = Some {| g_id := id; g_label := label; g_props := p |}.
-Proof. unfold find_node. simpl. rewrite str_eqb_refl. reflexivity. Qed.
-
-Theorem graph_flat_roundtrip_generic k id a :
-  all_tables_ok = true -> kind_eqb k KComponent = false ->
-  attrs_wf k a = true -> is_normal k a = true ->
-  graph_roundtrip (flat k id a) = Ok (flat k id a).
+Lemma tree_wf_sub : forall t, tree_wf t = true -> forall u, In u (subtrees t) -> tree_wf u = true.
 Proof.
-  intros Hok Hk Hwf Hn.
-  destruct (tables_ok_parts k Hok) as [Hs [Hd _]].
-  assert (Hrt := props_roundtrip_generic k a Hs Hwf).
-  destruct (to_props k a) as [p|] eqn:Ep; [|discriminate]. cbn [bind] in Hrt.
-  rewrite (normalize_normal k a Hn) in Hrt.
-  assert (ND := to_props_result_nodup k a p Hs Ep).
-  assert (Hnid : ~ In node_id_prop (akeys p)).
-  { intro Hc. destruct (alookup_in_keys _ _ Hc) as [v Hv].
-    assert (H0 := node_id_not_written k a p Hs Hd Ep). unfold node_id_of, pget in H0.
-    destruct (sym_parts k Hs) as [_ [NDg _]]. unfold to_props in Ep.
-    destruct (to_props_entries_spec a (to_table k) [] p NDg Ep) as [_ H2].
-    rewrite H2 in Hv; [discriminate|].
-    unfold dict_tables_ok in Hd. apply andb_true_iff in Hd as [Hd _]. apply andb_true_iff in Hd as [Hd _].
-    rewrite forallb_forall in Hd. intro Hin. apply in_map_iff in Hin as [te [E Hte]]. specialize (Hd te Hte).
-    apply andb_true_iff in Hd as [_ Hd]. unfold gp in E. rewrite E in Hd. rewrite String.eqb_refl in Hd. discriminate. }
-  assert (Hfp := from_props_node_props k id p a Hs Hd ND Hrt).
-  assert (Hid := node_props_id id p Hnid).
-  fold (node_props id p) in *.
-  unfold graph_roundtrip, flat. cbn [t_nid t_kind].
-  destruct k; [ | discriminate Hk | | | ]; unfold add_sliver; cbn [t_kind].
-  - (* node *)
-    unfold add_network_node_sliver. cbn [need_id t_nid bind t_name t_attrs t_comps t_nss olist].
-    unfold check_node_unique. cbn [empty_graph g_nodes existsb negb].
-    rewrite Ep. cbn [bind]. unfold add_node. cbn [find_node empty_graph g_nodes find bind g_edges app].
-    unfold foldM. cbn [fold_left bind].
-    unfold build_deep, build_deep_node_sliver, with_label, get_node_properties.
-    fold (node_props id p). rewrite single_node_find. cbn [bind fst snd g_label g_props class_label].
-    rewrite String.eqb_refl. cbn [bind]. rewrite Hfp. cbn [bind].
-    unfold get_first_neighbor. rewrite single_node_find. cbn [g_nodes filter g_label g_id map].
-    simpl String.eqb. cbn [andb filter map mapM bind info_of]. rewrite Hid. reflexivity.
-  - (* service *)
-    unfold add_network_service_sliver. cbn [need_id t_nid bind t_name t_attrs t_ifs olist].
-    unfold check_node_unique. cbn [empty_graph g_nodes existsb negb].
-    rewrite Ep. cbn [bind]. unfold add_node. cbn [find_node empty_graph g_nodes find bind g_edges app].
-    unfold foldM. cbn [fold_left bind].
-    unfold build_deep, build_deep_ns_sliver, with_label, get_node_properties.
-    fold (node_props id p). rewrite single_node_find. cbn [bind fst snd g_label g_props class_label].
-    rewrite String.eqb_refl. cbn [bind]. rewrite Hfp. cbn [bind].
-    unfold get_first_neighbor. rewrite single_node_find. cbn [g_nodes filter g_label g_id map].
-    simpl String.eqb. cbn [andb filter map mapM bind info_of]. rewrite Hid. reflexivity.
-  - (* interface *)
-    unfold add_interface_sliver. cbn [need_id t_nid bind t_attrs].
-    rewrite Ep. cbn [bind]. unfold add_node. cbn [find_node empty_graph g_nodes find bind g_edges app].
-    unfold build_deep, build_deep_interface_sliver, with_label, get_node_properties.
-    fold (node_props id p). rewrite single_node_find. cbn [bind fst snd g_label g_props class_label].
-    rewrite String.eqb_refl. cbn [bind]. rewrite Hfp. cbn [bind]. rewrite Hid.
-    destruct (alookup "resource_type" a) as [[ty|]|]; try reflexivity.
-    destruct (fval_eqb ty dedicated); [|reflexivity].
-    unfold get_first_neighbor. rewrite single_node_find. cbn [g_nodes filter g_label g_id map].
-    rewrite String.eqb_refl. unfold adjacent_via. cbn [g_edges existsb andb filter map mapM bind info_of].
-    reflexivity.
-  - (* link *)
-    unfold add_network_link_sliver. cbn [need_id t_nid bind t_attrs].
-    rewrite Ep. cbn [bind]. unfold add_node. cbn [find_node empty_graph g_nodes find bind g_edges app].
-    unfold foldM. cbn [fold_left bind].
-    unfold build_deep, build_deep_link_sliver, with_label, get_node_properties.
-    fold (node_props id p). rewrite single_node_find. cbn [bind fst snd g_label g_props class_label].
-    rewrite String.eqb_refl. cbn [bind]. unfold flat_sliver. rewrite Hfp. cbn [bind]. rewrite Hid. reflexivity.
+  apply (kids_ind (fun t => tree_wf t = true -> forall u, In u (subtrees t) -> tree_wf u = true)).
+  intros t IH Hwf u Hu. rewrite subtrees_eq in Hu. destruct Hu as [E|Hu]; [subst; exact Hwf|].
+  apply in_flat_map in Hu as [c [Hc Hu]]. apply (IH c Hc); [apply (wf_kids t c Hwf Hc) | exact Hu].
+Qed.
+
+Lemma mapM_ids (f : str -> res tree) l :
+  (forall c, In c l -> f (id_of c) = Ok c) -> mapM f (map id_of l) = Ok l.
+Proof.
+  induction l as [|c l IH]; intro H; [reflexivity|].
+  simpl. rewrite (H c (or_introl eq_refl)). simpl.
+  change (mapM f (map id_of l)) with (mapM f (map id_of l)).
+  rewrite IH by (intros c' Hc'; apply H; right; exact Hc'). reflexivity.
+Qed.
+
+(* the info object rebuilt from the kids of a slot *)
+Lemma slot_info ck o :
+  slot_ok tree_wf true ck o = true -> info_of ck (olist o) = Ok o.
+Proof.
+  intro Hs. simpl in Hs. destruct o as [l|]; [|reflexivity]. simpl in *.
+  apply andb_true_iff in Hs as [Hs Hnd]. apply andb_true_iff in Hs as [Hne Hall].
+  destruct l as [|u l]; [discriminate|]. unfold info_of.
+  rewrite build_info_ok; [reflexivity | | exact Hnd].
+  rewrite forallb_forall in *. intros x Hx. specialize (Hall x Hx).
+  apply andb_true_iff in Hall as [Hall Hty]. apply andb_true_iff in Hall as [_ Hnm].
+  unfold child_ok. rewrite Hnm. exact Hty.
+Qed.
+
+Lemma slot_none ck o : slot_ok tree_wf false ck o = true -> o = None.
+Proof. simpl. destruct o; [discriminate | reflexivity]. Qed.
+
+Lemma filter_all_kids (f : tree -> bool) l : (forall c, In c l -> f c = true) -> filter f l = l.
+Proof. apply filter_all. Qed.
+
+Section Readers.
+  Variable t : tree.
+  Hypothesis Hok : all_tables_ok = true.
+  Hypothesis Hwf : tree_wf t = true.
+  Hypothesis Hids : forallb has_id (subtrees t) = true.
+  Hypothesis ND : NoDup (map id_of (subtrees t)).
+  Hypothesis Hshape : forallb shape_ok (subtrees t) = true.
+  Let G := graph_of t.
+
+  Lemma sub_wf u : In u (subtrees t) -> tree_wf u = true.
+  Proof. apply tree_wf_sub. exact Hwf. Qed.
+
+  Lemma sub_id u : In u (subtrees t) -> t_nid u = Some (id_of u).
+  Proof. intro Hu. apply has_id_nid. rewrite forallb_forall in Hids. apply Hids. exact Hu. Qed.
+
+  (* get_node_properties and from_props at the node of u *)
+  Lemma read_node u : In u (subtrees t) ->
+    get_node_properties G (id_of u) = Ok (class_label (t_kind u), node_props (id_of u) (props_of u)) /\
+    from_props (t_kind u) (node_props (id_of u) (props_of u)) = Ok (t_attrs u) /\
+    node_id_of (node_props (id_of u) (props_of u)) = Some (id_of u).
+  Proof.
+    intro Hu. assert (Hwu := sub_wf u Hu).
+    destruct (tables_ok_parts (t_kind u) Hok) as [Hs [Hd [_ Hnone]]].
+    assert (Hp := props_of_ok u Hok Hwu).
+    assert (Hrt := props_roundtrip_exact_generic _ _ Hs Hnone (tree_wf_attrs u Hwu)).
+    rewrite Hp in Hrt. cbn [bind] in Hrt.
+    assert (NDp := to_props_result_nodup _ _ _ Hs Hp).
+    split; [|split].
+    - unfold get_node_properties. unfold G. rewrite (find_in_G t ND u Hu). reflexivity.
+    - apply from_props_node_props; assumption.
+    - apply node_props_id. intro Hc. destruct (alookup_in_keys _ _ Hc) as [v Hv].
+      destruct (sym_parts _ Hs) as [_ [NDg _]]. unfold to_props in Hp.
+      destruct (to_props_entries_spec _ _ [] _ NDg Hp) as [_ H2].
+      rewrite H2 in Hv; [discriminate Hv|].
+      unfold dict_tables_ok in Hd. apply andb_true_iff in Hd as [Hd _]. apply andb_true_iff in Hd as [Hd _].
+      rewrite forallb_forall in Hd. intro Hin. apply in_map_iff in Hin as [te [E Hte]]. specialize (Hd te Hte).
+      apply andb_true_iff in Hd as [_ Hd]. unfold gp in E. rewrite E in Hd. rewrite String.eqb_refl in Hd. discriminate Hd.
+  Qed.
+
+  Lemma with_label_ok u : In u (subtrees t) ->
+    with_label G (id_of u) (t_kind u) = Ok (node_props (id_of u) (props_of u)).
+  Proof.
+    intro Hu. unfold with_label. destruct (read_node u Hu) as [H1 _]. rewrite H1. cbn [bind fst snd].
+    rewrite String.eqb_refl. reflexivity.
+  Qed.
+
+  (* a leaf interface read without descending *)
+  Lemma R_flat u : In u (subtrees t) -> t_kind u = KInterface -> childless u = true ->
+    bind (get_node_properties G (id_of u)) (fun lp => flat_sliver KInterface (snd lp)) = Ok u.
+  Proof.
+    intros Hu Hk Hcl. destruct (read_node u Hu) as [H1 [H2 H3]]. rewrite H1. cbn [bind snd].
+    unfold flat_sliver. rewrite Hk in H2. rewrite H2. cbn [bind]. rewrite H3.
+    assert (Hn := sub_id u Hu).
+    destruct u as [k nid a c n i]. simpl in *. subst k. rewrite Hn.
+    destruct c, n, i; try discriminate Hcl. reflexivity.
+  Qed.
+
+  Lemma shape_of u : In u (subtrees t) -> shape_ok u = true.
+  Proof. intro Hu. rewrite forallb_forall in Hshape. apply Hshape. exact Hu. Qed.
+
+  Lemma R_if u : In u (subtrees t) -> t_kind u = KInterface ->
+    build_deep_interface_sliver G (id_of u) = Ok u.
+  Proof.
+    intros Hu Hk. assert (Hwu := sub_wf u Hu). assert (Hsh := shape_of u Hu).
+    destruct (read_node u Hu) as [_ [H2 H3]]. assert (Hn := sub_id u Hu).
+    assert (Hwl := with_label_ok u Hu). rewrite Hk in Hwl, H2.
+    unfold build_deep_interface_sliver. rewrite Hwl. cbn [bind].
+    rewrite H2. cbn [bind]. rewrite H3.
+    assert (Hkid : forall c, In c (kids u) -> t_kind c = KInterface /\ tree_wf c = true).
+    { intros c Hc. destruct (wf_kids u c Hwu Hc) as [A B]. rewrite Hk in B. auto. }
+    destruct u as [k [id|] a c n i]; [|discriminate Hn]. simpl in Hk. subst k. clear Hn.
+    simpl in Hwu. repeat rewrite andb_true_iff in Hwu. destruct Hwu as [[[Ha Hsc] Hsn] Hsi].
+    apply (slot_none KComponent) in Hsc. apply (slot_none KService) in Hsn. subst c n.
+    unfold shape_ok in Hsh. simpl t_kind in Hsh. simpl t_ifs in Hsh. unfold is_dedicated in Hsh. simpl t_attrs in *.
+    set (u := T KInterface (Some id) a None None i) in *.
+    change id with (id_of u).
+    destruct (alookup "resource_type" a) as [[ty|]|] eqn:Ety.
+    2,3: (destruct i as [l|]; [simpl in Hsh; discriminate Hsh | reflexivity]).
+    destruct (fval_eqb ty dedicated) eqn:Ed.
+    2: (destruct i as [l|]; [simpl in Hsh; discriminate Hsh | reflexivity]).
+    (* a DedicatedPort: its kids are its neighbours *)
+    assert (Hnb := neighbours t ND u rel_connects (class_label KInterface) Hu).
+    fold G in Hnb. rewrite Hnb.
+    - cbn [bind].
+      assert (Hfil : filter (fun c0 => String.eqb (class_label (t_kind c0)) (class_label KInterface)
+                                      && String.eqb (relk (t_kind c0)) rel_connects) (kids u) = kids u).
+      { apply filter_all. intros c0 Hc0. destruct (Hkid c0 Hc0) as [E _]. rewrite E. reflexivity. }
+      rewrite Hfil.
+      assert (Hleaves : forall c0, In c0 (kids u) -> childless c0 = true).
+      { intros c0 Hc0. unfold u in Hc0. simpl in Hc0. destruct i as [l|]; [|contradiction].
+        simpl in Hc0, Hsh. try (apply andb_true_iff in Hsh as [_ Hsh]). rewrite forallb_forall in Hsh.
+        specialize (Hsh c0 Hc0). apply andb_true_iff in Hsh as [Hsh _]. exact Hsh. }
+      rewrite (mapM_ids _ (kids u)).
+      + cbn [bind]. unfold u at 1. simpl kids. rewrite (slot_info KInterface i Hsi). reflexivity.
+      + intros c0 Hc0. apply R_flat.
+        * apply (subtrees_trans t u c0 Hu). apply in_kids_subtrees. exact Hc0.
+        * apply (Hkid c0 Hc0).
+        * apply (Hleaves c0 Hc0).
+    - intros v Hv Hkv _ Hl.
+      assert (Hkv' : t_kind v = KInterface) by (destruct (t_kind v); simpl in Hl; try discriminate Hl; reflexivity).
+      (* an interface parent only has leaves that are not DedicatedPorts, but u is one *)
+      assert (Hsv := shape_of v Hv). unfold shape_ok in Hsv. rewrite Hkv' in Hsv.
+      destruct v as [kv nv av cv nnv iv]. simpl in Hkv'. subst kv. simpl in Hkv, Hsv.
+      destruct iv as [lv|]; [|contradiction]. simpl in Hkv.
+      apply andb_true_iff in Hsv as [_ Hsv]. rewrite forallb_forall in Hsv. specialize (Hsv u Hkv).
+      apply andb_true_iff in Hsv as [_ Hsv]. unfold is_dedicated in Hsv. unfold u in Hsv. simpl t_attrs in Hsv.
+      rewrite Ety, Ed in Hsv. discriminate Hsv.
+  Qed.
+
+  Lemma R_ns u : In u (subtrees t) -> t_kind u = KService -> build_deep_ns_sliver G (id_of u) = Ok u.
+  Proof.
+    intros Hu Hk. assert (Hwu := sub_wf u Hu).
+    destruct (read_node u Hu) as [_ [H2 H3]]. assert (Hn := sub_id u Hu).
+    assert (Hwl := with_label_ok u Hu). rewrite Hk in Hwl, H2.
+    unfold build_deep_ns_sliver. rewrite Hwl. cbn [bind]. rewrite H2. cbn [bind]. rewrite H3.
+    assert (Hkid : forall c, In c (kids u) -> t_kind c = KInterface /\ tree_wf c = true).
+    { intros c Hc. destruct (wf_kids u c Hwu Hc) as [A B]. rewrite Hk in B. auto. }
+    assert (Hnb := neighbours t ND u rel_connects (class_label KInterface) Hu). fold G in Hnb.
+    rewrite Hnb.
+    - cbn [bind]. rewrite filter_all by (intros c0 Hc0; destruct (Hkid c0 Hc0) as [E _]; rewrite E; reflexivity).
+      rewrite (mapM_ids _ (kids u)).
+      + cbn [bind]. destruct u as [k [id|] a c n i]; [|discriminate Hn]. simpl in Hk. subst k.
+        simpl in Hwu. repeat rewrite andb_true_iff in Hwu. destruct Hwu as [[[Ha Hsc] Hsn] Hsi].
+        apply (slot_none KComponent) in Hsc. apply (slot_none KService) in Hsn. subst c n.
+        simpl kids. rewrite (slot_info KInterface i Hsi). reflexivity.
+      + intros c0 Hc0. apply R_if.
+        * apply (subtrees_trans t u c0 Hu). apply in_kids_subtrees. exact Hc0.
+        * apply (Hkid c0 Hc0).
+    - intros v Hv Hkv Hr. rewrite Hk in Hr. discriminate Hr.
+  Qed.
+
+  Lemma R_comp u : In u (subtrees t) -> t_kind u = KComponent -> build_deep_component_sliver G (id_of u) = Ok u.
+  Proof.
+    intros Hu Hk. assert (Hwu := sub_wf u Hu).
+    destruct (read_node u Hu) as [_ [H2 H3]]. assert (Hn := sub_id u Hu).
+    assert (Hwl := with_label_ok u Hu). rewrite Hk in Hwl, H2.
+    unfold build_deep_component_sliver. rewrite Hwl. cbn [bind]. rewrite H2. cbn [bind]. rewrite H3.
+    assert (Hkid : forall c, In c (kids u) -> t_kind c = KService /\ tree_wf c = true).
+    { intros c Hc. destruct (wf_kids u c Hwu Hc) as [A B]. rewrite Hk in B. auto. }
+    assert (Hnb := neighbours t ND u rel_has (class_label KService) Hu). fold G in Hnb.
+    rewrite Hnb.
+    - cbn [bind]. rewrite filter_all by (intros c0 Hc0; destruct (Hkid c0 Hc0) as [E _]; rewrite E; reflexivity).
+      rewrite (mapM_ids _ (kids u)).
+      + cbn [bind]. destruct u as [k [id|] a c n i]; [|discriminate Hn]. simpl in Hk. subst k.
+        simpl in Hwu. repeat rewrite andb_true_iff in Hwu. destruct Hwu as [[[Ha Hsc] Hsn] Hsi].
+        apply (slot_none KComponent) in Hsc. apply (slot_none KInterface) in Hsi. subst c i.
+        simpl kids. rewrite app_nil_r. rewrite (slot_info KService n Hsn). reflexivity.
+      + intros c0 Hc0. apply R_ns.
+        * apply (subtrees_trans t u c0 Hu). apply in_kids_subtrees. exact Hc0.
+        * apply (Hkid c0 Hc0).
+    - (* the parent of a component is a node, not a service *)
+      intros v Hv Hkv _ Hl. destruct (wf_kids v u (sub_wf v Hv) Hkv) as [_ B]. rewrite Hk in B.
+      destruct (t_kind v); simpl in Hl; try discriminate Hl; try contradiction;
+        try (destruct B as [B|B]); discriminate B.
+  Qed.
+
+  Lemma R_node u : In u (subtrees t) -> t_kind u = KNode -> build_deep_node_sliver G (id_of u) = Ok u.
+  Proof.
+    intros Hu Hk. assert (Hwu := sub_wf u Hu).
+    destruct (read_node u Hu) as [_ [H2 H3]]. assert (Hn := sub_id u Hu).
+    assert (Hwl := with_label_ok u Hu). rewrite Hk in Hwl, H2.
+    unfold build_deep_node_sliver. rewrite Hwl. cbn [bind]. rewrite H2. cbn [bind]. rewrite H3.
+    assert (Hnopar : forall v, In v (subtrees t) -> In u (kids v) -> False).
+    { intros v Hv Hkv. destruct (wf_kids v u (sub_wf v Hv) Hkv) as [_ B]. rewrite Hk in B.
+      destruct (t_kind v); try contradiction; try discriminate B; destruct B as [B|B]; discriminate B. }
+    assert (Hnb1 := neighbours t ND u rel_has (class_label KComponent) Hu). fold G in Hnb1.
+    assert (Hnb2 := neighbours t ND u rel_has (class_label KService) Hu). fold G in Hnb2.
+    rewrite Hnb1 by (intros v Hv Hkv; exfalso; exact (Hnopar v Hv Hkv)). cbn [bind].
+    destruct u as [k [id|] a c n i]; [|discriminate Hn]. simpl in Hk. subst k.
+    assert (Hwu' := Hwu). simpl in Hwu'. repeat rewrite andb_true_iff in Hwu'. destruct Hwu' as [[[Ha Hsc] Hsn] Hsi].
+    apply (slot_none KInterface) in Hsi. subst i.
+    set (u := T KNode (Some id) a c n None) in *.
+    assert (Hkc : forall c0, In c0 (olist c) -> t_kind c0 = KComponent).
+    { intros c0 Hc0. apply (slot_kid_wf true KComponent c c0 _ Hsc eq_refl Hc0). }
+    assert (Hkn : forall c0, In c0 (olist n) -> t_kind c0 = KService).
+    { intros c0 Hc0. apply (slot_kid_wf true KService n c0 _ Hsn eq_refl Hc0). }
+    assert (Hk1 : filter (fun c0 => String.eqb (class_label (t_kind c0)) (class_label KComponent)
+                                    && String.eqb (relk (t_kind c0)) rel_has) (kids u) = olist c).
+    { unfold u. simpl kids. rewrite app_nil_r. rewrite filter_app.
+      rewrite filter_all by (intros c0 Hc0; rewrite (Hkc c0 Hc0); reflexivity).
+      rewrite filter_none by (intros c0 Hc0; rewrite (Hkn c0 Hc0); reflexivity). apply app_nil_r. }
+    assert (Hk2 : filter (fun c0 => String.eqb (class_label (t_kind c0)) (class_label KService)
+                                    && String.eqb (relk (t_kind c0)) rel_has) (kids u) = olist n).
+    { unfold u. simpl kids. rewrite app_nil_r. rewrite filter_app.
+      rewrite filter_none by (intros c0 Hc0; rewrite (Hkc c0 Hc0); reflexivity).
+      rewrite filter_all by (intros c0 Hc0; rewrite (Hkn c0 Hc0); reflexivity). reflexivity. }
+    rewrite Hk1. rewrite (mapM_ids _ (olist c)).
+    - cbn [bind]. rewrite (slot_info KComponent c Hsc). cbn [bind].
+      rewrite Hnb2 by (intros v Hv Hkv; exfalso; exact (Hnopar v Hv Hkv)). cbn [bind].
+      rewrite Hk2. rewrite (mapM_ids _ (olist n)).
+      + cbn [bind]. rewrite (slot_info KService n Hsn). reflexivity.
+      + intros c0 Hc0. apply R_ns; [|exact (Hkn c0 Hc0)].
+        apply (subtrees_trans t u c0 Hu). apply in_kids_subtrees. unfold u. simpl kids.
+        apply in_or_app. right. apply in_or_app. left. exact Hc0.
+    - intros c0 Hc0. apply R_comp; [|exact (Hkc c0 Hc0)].
+      apply (subtrees_trans t u c0 Hu). apply in_kids_subtrees. unfold u. simpl kids.
+      apply in_or_app. left. exact Hc0.
+  Qed.
+
+  Lemma R_link u : In u (subtrees t) -> t_kind u = KLink -> build_deep_link_sliver G (id_of u) = Ok u.
+  Proof.
+    intros Hu Hk. assert (Hwu := sub_wf u Hu).
+    destruct (read_node u Hu) as [_ [H2 H3]]. assert (Hn := sub_id u Hu).
+    assert (Hwl := with_label_ok u Hu). rewrite Hk in Hwl, H2.
+    unfold build_deep_link_sliver. rewrite Hwl. cbn [bind]. unfold flat_sliver. rewrite H2. cbn [bind]. rewrite H3.
+    destruct u as [k [id|] a c n i]; [|discriminate Hn]. simpl in Hk. subst k.
+    simpl in Hwu. repeat rewrite andb_true_iff in Hwu. destruct Hwu as [[[Ha Hsc] Hsn] Hsi].
+    apply (slot_none KComponent) in Hsc. apply (slot_none KService) in Hsn. apply (slot_none KInterface) in Hsi.
+    subst c n i. reflexivity.
+  Qed.
+End Readers.
+
+Lemma strs_nodup_NoDup l : strs_nodup l = true -> NoDup l.
+Proof.
+  induction l as [|x l IH]; simpl; intro H; [constructor|].
+  apply andb_true_iff in H as [H1 H2]. constructor; [|apply IH; exact H2].
+  intro Hin. apply negb_true_iff in H1. rewrite existsb_id_true in H1 by exact Hin. discriminate.
+Qed.
+
+Lemma grown_empty t : grown empty_graph None t = graph_of t.
+Proof. reflexivity. Qed.
+
+(* THE GRAPH ROUTE, any nesting: a sliver tree written into an empty graph with add_*_sliver and
+   rebuilt with build_deep_*_sliver comes back identical - structure, attributes, node ids. *)
+Theorem graph_roundtrip_generic t :
+  all_tables_ok = true -> add_interface_descends = true -> graph_wf t = true ->
+  graph_roundtrip t = Ok t.
+Proof.
+  intros Hok Hdesc Hg. unfold graph_wf in Hg. repeat rewrite andb_true_iff in Hg.
+  destruct Hg as [[[[Hwf Hk] Hids] Hnd] Hshape]. apply strs_nodup_NoDup in Hnd.
+  assert (Hroot : In t (subtrees t)) by (rewrite subtrees_eq; left; reflexivity).
+  assert (Hn := has_id_nid t (forallb_subtrees_root _ _ Hids)).
+  assert (Hg0 := good_empty).
+  unfold graph_roundtrip, add_sliver. rewrite Hn.
+  destruct (t_kind t) eqn:Ek; try discriminate Hk.
+  - rewrite (W_node Hok Hdesc t Ek Hwf Hids Hnd). cbn [bind]. rewrite grown_empty.
+    apply (R_node t Hok Hwf Hids Hnd Hshape t Hroot Ek).
+  - assert (W := W_ns Hok Hdesc t Ek Hwf Hids empty_graph None (fun _ => eq_refl) Hg0).
+    cbn [option_map] in W. rewrite W; [|intros p E; discriminate E | exact Hnd].
+    cbn [bind]. rewrite grown_empty. apply (R_ns t Hok Hwf Hids Hnd Hshape t Hroot Ek).
+  - assert (W := W_if Hok Hdesc t Ek Hwf Hids empty_graph None (fun _ => eq_refl) Hg0).
+    cbn [option_map] in W. rewrite W; [|intros p E; discriminate E | exact Hnd].
+    cbn [bind]. rewrite grown_empty. apply (R_if t Hok Hwf Hids Hnd Hshape t Hroot Ek).
+  - rewrite (W_link Hok t Ek Hwf (forallb_subtrees_root _ _ Hids)). cbn [bind]. rewrite grown_empty.
+    apply (R_link t Hok Hwf Hids Hnd t Hroot Ek).
 Qed.
